@@ -4,11 +4,13 @@ import (
 	"encoding/json"
 	"fmt"
 	"os"
+	"reflect"
 	"runtime/debug"
 	"strconv"
 	"strings"
 	"sync"
 	"testing"
+	"time"
 
 	"pgregory.net/rapid"
 
@@ -144,3 +146,61 @@ func TestReplay(t *testing.T) {
 }
 
 func jsonMarshal(v interface{}) ([]byte, error) { return json.Marshal(v) }
+
+// junkFill sets every settable part of v to a non-zero value: a caller's struct
+// that is not empty when it is handed to ReadFile by pointer.
+func junkFill(v reflect.Value, depth int) {
+	if !v.CanSet() {
+		return
+	}
+	switch v.Kind() {
+	case reflect.Bool:
+		v.SetBool(true)
+	case reflect.Int, reflect.Int8, reflect.Int16, reflect.Int32, reflect.Int64:
+		v.SetInt(0x55)
+	case reflect.Uint, reflect.Uint8, reflect.Uint16, reflect.Uint32, reflect.Uint64, reflect.Uintptr:
+		v.SetUint(0x55)
+	case reflect.Float32, reflect.Float64:
+		v.SetFloat(5.5)
+	case reflect.String:
+		v.SetString("junk-left-by-the-caller")
+	case reflect.Slice:
+		if depth <= 0 {
+			return
+		}
+		s := reflect.MakeSlice(v.Type(), 2, 3)
+		junkFill(s.Index(0), depth-1)
+		junkFill(s.Index(1), depth-1)
+		v.Set(s)
+	case reflect.Array:
+		for i := 0; i < v.Len(); i++ {
+			junkFill(v.Index(i), depth)
+		}
+	case reflect.Ptr:
+		if depth <= 0 {
+			return
+		}
+		p := reflect.New(v.Type().Elem())
+		junkFill(p.Elem(), depth-1)
+		v.Set(p)
+	case reflect.Map:
+		if depth <= 0 {
+			return
+		}
+		m := reflect.MakeMap(v.Type())
+		k := reflect.New(v.Type().Key()).Elem()
+		junkFill(k, depth-1)
+		e := reflect.New(v.Type().Elem()).Elem()
+		junkFill(e, depth-1)
+		m.SetMapIndex(k, e)
+		v.Set(m)
+	case reflect.Struct:
+		if v.Type() == reflect.TypeOf(time.Time{}) {
+			v.Set(reflect.ValueOf(time.Date(1999, 9, 9, 9, 9, 9, 9, time.UTC)))
+			return
+		}
+		for i := 0; i < v.NumField(); i++ {
+			junkFill(v.Field(i), depth)
+		}
+	}
+}
